@@ -186,8 +186,51 @@ pub fn gen_grazing(rng: &mut Rng, n: usize, out: &mut Vec<String>) {
     }
 }
 
+/// Edge-on triangles: two vertices on one ray through the eye (clip-space (X·w, Y·w, z, w) for two
+/// different w), so they project to the SAME screen point — chosen to be a pixel centre — with
+/// different depths; the third vertex anywhere. In screen space the triangle has zero width along
+/// that edge: the class of the fixed defect zero-width-trapezoid-nan (NaN depth with the test off).
+pub fn gen_edge_on(rng: &mut Rng, n: usize, out: &mut Vec<String>) {
+    for i in 0..n {
+        let w = 4 + rng.below(12) as u32;
+        let h = 3 + rng.below(8) as u32;
+        let test = ['n', 'l', 'g', 'n'][i % 4];
+        let tgt = if i % 5 == 4 { "cb" } else { "fb" };
+        let mut line = format!(
+            "scene door=r tgt={tgt} dims={w}x{h} vp=0,0,{w},{h} cull=n sort=n test={test} cw=1 dw=1 sh=0 proj=none zinit={} k=1 sel=0 v 3",
+            h32(0.0)
+        );
+        // NDC of a pixel centre (or, sometimes, an arbitrary point)
+        let (px, py) = (rng.below(w as u64) as f32 + 0.5, rng.below(h as u64) as f32 + 0.5);
+        let (mut nx, mut ny) = (px / w as f32 * 2.0 - 1.0, py / h as f32 * 2.0 - 1.0);
+        if rng.chance(1, 4) {
+            nx = rng.f32_in(-0.9, 0.9);
+            ny = rng.f32_in(-0.9, 0.9);
+        }
+        let w1 = rng.f32_in(0.5, 4.0);
+        let w2 = if rng.chance(1, 3) { w1 * 2.0 } else { rng.f32_in(0.5, 4.0) };
+        let third = if rng.bool() {
+            // on the same ray too (the whole triangle is a point on screen) or anywhere inside
+            let w3 = rng.f32_in(0.5, 4.0);
+            if rng.chance(1, 3) { [nx * w3, ny * w3, rng.f32_in(-0.9, 0.9) * w3, w3] } else { [rng.f32_in(-0.9, 0.9) * w3, rng.f32_in(-0.9, 0.9) * w3, 0.0, w3] }
+        } else {
+            // at the eye plane: w = 0 (clipped by the near plane)
+            [rng.f32_in(-1.0, 1.0), rng.f32_in(-1.0, 1.0), -1.0, 0.0]
+        };
+        let vs = [[nx * w1, ny * w1, rng.f32_in(-0.9, 0.9) * w1, w1], [nx * w2, ny * w2, rng.f32_in(-0.9, 0.9) * w2, w2], third];
+        let order = [[0, 1, 2], [1, 2, 0], [2, 0, 1]][i % 3];
+        for j in order {
+            let v = vs[j];
+            line += &format!(" {} {} {} {} {}", h32(v[0]), h32(v[1]), h32(v[2]), h32(v[3]), h32(rng.f32_in(-5.0, 5.0)));
+        }
+        line += " t 1 0 1 2";
+        out.push(line);
+    }
+}
+
 pub fn gen_all(rng: &mut Rng, tier: Tier, out: &mut Vec<String>) {
     gen(rng, tier, out);
+    gen_edge_on(rng, if tier == Tier::Quick { 800 } else { 20_000 }, out);
     gen_grazing(rng, if tier == Tier::Quick { 600 } else { 20_000 }, out);
     gen_needles(rng, if tier == Tier::Quick { 16_000 } else { 200_000 }, out);
 }
